@@ -14,16 +14,26 @@ import discretisedfield as df
 
 PID = "C18"
 RULE = ("scalar and 3-vector fields (affine, uniform, random integer data; renamed dims, permuted component-to-axis mappings, bc, masks) "
-        "on anisotropic dyadic 3-d meshes, driven through FieldRotator with histories of 1-4 rotate/clear calls; every rotation is a rational "
+        "on anisotropic 3-d meshes, driven through FieldRotator with histories of 1-4 rotate/clear calls; every rotation is a rational "
         "matrix from an integer quaternion (|components| <= 3, or one of the 24 lattice rotations) handed to the real code as quaternion, "
         "matrix, rotation vector, Euler angles (12 sequences), modified Rodrigues parameters or align_vector, and to the model as the exact "
-        "matrix; explicit, automatic and malformed n. Compared after every call: ok/err, accumulated rotation (FieldRotator._rotation), "
+        "matrix; explicit, automatic and malformed n (zero, two or four entries). The property does not depend on units: every mesh is "
+        "drawn at a length scale 1, 10^k (k = -12..9), 2^k (k = -40..30) or an arbitrary 3-digit mantissa in 1e-12..1e9 (tags lscale:*; "
+        "the model gets the exact binary64 corners), 25 % of them far from the origin (up to 1e6 cells, either side, per axis; offset:far), "
+        "values at magnitude 1, 10^k (k = -12..12) or arbitrary in 1e-12..1e12 (vscale:*); ALL tolerances are relative (to the cell, to the "
+        "region extent plus a few ulp of the largest coordinate, to the largest stored magnitude) - no absolute floor anywhere. "
+        "Compared after every call: ok/err, accumulated rotation (FieldRotator._rotation), "
         "region, n, dims/units/labels/mapping/unit/validity, every cell value to 1e-9 relative (cells within 1e-6 cell of the inside/outside "
         "face skipped; automatic n within 1e-9 of a rounding tie may take either neighbour). Oracle on the real code alone: same centre, "
         "bounding box = hull of the 8 rotated corners, values = Q * trilinear interpolant of the original at the back-rotated centre for "
         "cells at least one cell inside, 0 outside, affine scalar / uniform vector fields reproduced, history == one rotation by the ordered "
         "product from a fresh rotator, clear restores the original object, quarter turns on cubic cells == Field.rotate90, refusals. "
-        "Direct probes of the interpolator at nodes, faces, random and outside points (1e-12). FieldRotator._rotation compared (1e-12) with the model's "
+        "Long meshes (kind 'big': 100-4000 cells along one axis, 1-6 across, explicit target n with 100-3000 cells along the longest edge, "
+        "half of the rotations about the long axis) against the same oracle on the real code alone (no model run). "
+        "Direct probes of the interpolator at nodes, faces, random and outside points (1e-12 relative), and at every relative distance 1e-1 ... 1e-15 "
+        "of a cell from a face of the region on either side and from a node (near-face:*): further than 1e-6 cell outside must be 0, inside is "
+        "compared with the model, within 1e-6 cell of the face either 0 or the value just inside is accepted. "
+        "FieldRotator._rotation compared (1e-12) with the model's "
         "own parameterisations: from_mrp on dyadic vectors, align_vector on exact equal-length pairs, from_euler / from_rotvec with quarter-turn "
         "angles, the quarter-turn matrices of C12's planes, argsort; unknown method names are part of the modelled histories. "
         "non-trivial = a successful rotation that is not a lattice rotation with at least one deep-inside and one outside target cell, "
@@ -35,8 +45,10 @@ TRUSTED = ["harness/c18.py, harness/fieldio.py + driver JSON glue",
            "float conversions of the exact rational rotation to rotation vector / Euler angles / MRP / alignment vectors done in the harness "
            "(math.atan2, scipy as_euler)"]
 ASSUMPTIONS = ["tolerance regime: scipy computes rotations in binary64, the model exactly; values agree to 1e-9 relative to the largest "
-               "magnitude involved, geometry to 1e-9 of the region scale; the inside/outside decision of a centre within 1e-6 cell of the "
-               "padded box faces is not compared"]
+               "magnitude involved, geometry to 1e-9 of the region extent (+ 2^-48 of the largest coordinate for regions far from the origin); "
+               "the inside/outside decision of a centre within 1e-6 cell of the padded box faces is not compared; for a region whose "
+               "coordinates are C cells from the origin the back-rotated positions carry a rounding error of up to 2^-49 C cells on the "
+               "real code: the value tolerance grows by 8x and the skipped band by 4x that amount (C <= 1e6 cells: <= 2e-8 / 1e-8)"]
 UNPROVED = ["the automatic cell count is the rounded real cube-root expression: the model decides it exactly by integer cube comparisons "
             "(theorems roundCbrt_spec, rot_metadata_auto: every automatic count is >= 1; rot_lattice_copies_cells: for lattice rotations it is the "
             "permuted count) but that np.round/** compute the same is observed, not proved",
@@ -48,7 +60,11 @@ UNPROVED = ["the automatic cell count is the rounded real cube-root expression: 
             "from_rotvec / from_euler are modelled for quarter-turn angles only (Raxis, eulerQ), align_vector for equal-length vectors only (ofAlign): "
             "for other inputs the matrix entries are not rational; those rotations enter model and theorems as the matrix scipy is asked to build",
             "that scipy's float Rotation/RegularGridInterpolator implement exact matrix algebra / multilinear interpolation up to rounding is the "
-            "contract validated by the correspondence run, not proved"]
+            "contract validated by the correspondence run, not proved",
+            "independence of the unit of length and of the value magnitude holds in the model by construction (the padding offset is 1e-9 of a "
+            "CELL, every formula is homogeneous) but is not stated as a theorem; on the real code it is sampled (length scales 1e-12..1e9, "
+            "values 1e-12..1e12, offsets up to 1e6 cells), and meshes with more than 6 cells along an axis are checked against the numpy "
+            "statement of the property only, not against the model"]
 BUDGET = {"quick": 85, "thorough": 900}
 
 EULER_SEQS = ["xyz", "zyx", "zxz", "xyx", "yzy", "xzy", "XYZ", "ZYX", "ZXZ", "YXY", "XZX", "YZX"]
@@ -121,18 +137,57 @@ def gen_rot(rng):
 
 
 # ------------------------------------------------------------------ fields
-def gen_field_spec(rng, nmin=1, nmax=5, max_cells=75, cubic=False):
-    while True:
+def sig3(x):
+    """x rounded to 3 significant decimal digits (an 'arbitrary' float such as 2.37e-10)"""
+    return float(f"{x:.3g}")
+
+
+def draw_lscale(rng):
+    """length scale of the mesh: the property does not depend on the unit of length"""
+    r = rng.random()
+    if r < 0.30:
+        return 1.0
+    if r < 0.62:
+        return 10.0 ** rng.randint(-12, 9)
+    if r < 0.78:
+        return 2.0 ** rng.randint(-40, 30)
+    return sig3(10 ** rng.uniform(-12, 9))
+
+
+def draw_vscale(rng):
+    """magnitude of the stored values (1e-12 ... 1e12; A/m-sized, tesla-sized, tiny)"""
+    r = rng.random()
+    if r < 0.55:
+        return 1.0
+    if r < 0.85:
+        return 10.0 ** rng.randint(-12, 12)
+    return sig3(10 ** rng.uniform(-12, 12))
+
+
+def lbucket(x):
+    return "<=1e-9" if x <= 1e-9 else "1e-9..1e-3" if x < 1e-3 else "1e-3..1e3" if x <= 1e3 else "1e3..1e6" if x <= 1e6 else ">1e6"
+
+
+def gen_field_spec(rng, nmin=1, nmax=5, max_cells=75, cubic=False, scaled=True, n=None):
+    while n is None:
         n = [rng.randint(nmin, nmax) for _ in range(3)]
-        if int(np.prod(n)) <= max_cells:
-            break
+        if int(np.prod(n)) > max_cells:
+            n = None
     if cubic:
         c = Fraction(rng.choice([1, 3, 5]), 2 ** rng.randint(0, 2))
         cell = [c, c, c]
     else:
         cell = [Fraction(rng.choice([1, 1, 3, 5]), 2 ** rng.randint(0, 3)) * rng.choice([1, 1, 2, 3]) for _ in range(3)]
     pmin = [Fraction(rng.randint(-40, 40), 2 ** rng.randint(0, 2)) for _ in range(3)]
+    ls, vs, offc = 1.0, 1.0, [0, 0, 0]
+    if scaled:
+        ls, vs = draw_lscale(rng), draw_vscale(rng)
+        if rng.random() < 0.25:
+            # region far from the origin: up to 1e6 cells away, per axis, either side
+            offc = [rng.choice([-1, 1]) * rng.randint(1, 10 ** rng.randint(2, 6)) if rng.random() < 0.8 else 0 for _ in range(3)]
+            pmin = [a + k * c for a, k, c in zip(pmin, offc, cell)]
     pmax = [a + k * c for a, k, c in zip(pmin, n, cell)]
+    L = Fraction(ls)
     dims = rng.sample(fieldio.NAMES, 3) if rng.random() < 0.4 else None
     dd = dims or ["x", "y", "z"]
     nvdim = rng.choice([1, 3, 3])
@@ -147,9 +202,25 @@ def gen_field_spec(rng, nmin=1, nmax=5, max_cells=75, cubic=False):
     bc = ""
     if rng.random() < 0.15:
         bc = "".join(d for d in dd if len(d) == 1 and rng.random() < 0.6)
-    return dict(p1=[float(v) for v in pmin], p2=[float(v) for v in pmax], n=n, dims=dims, bc=bc, nvdim=nvdim,
+    return dict(p1=[float(v * L) for v in pmin], p2=[float(v * L) for v in pmax], n=n, dims=dims, bc=bc, nvdim=nvdim,
                 vdims=vdims, vmap=vmap, kind=rng.choice(["affine", "uniform", "random", "random"]),
-                masked=rng.random() < 0.2, unit=rng.choice([None, None, "A/m"]), sub=rng.getrandbits(30))
+                masked=rng.random() < 0.2, unit=rng.choice([None, None, "A/m"]), sub=rng.getrandbits(30),
+                ls=ls, vs=vs, offc=offc)
+
+
+def scale_tags(spec):
+    return ["lscale:" + lbucket(spec.get("ls", 1.0)), "vscale:" + lbucket(spec.get("vs", 1.0)),
+            "offset:" + ("far" if any(spec.get("offc", [0])) else "near"), "n0max:" + nbucket(max(spec["n"]))]
+
+
+def nbucket(k):
+    return "<=6" if k <= 6 else "7..99" if k < 100 else "100..999" if k < 1000 else ">=1000"
+
+
+def pos_eps_of(pmin, pmax, cell):
+    """bound (in cells) on the rounding error of a back-rotated target centre: the code subtracts the region centre from
+    absolute float coordinates, a few ulp of the largest coordinate"""
+    return 2.0 ** -49 * float(max(np.abs(pmin).max(), np.abs(pmax).max())) / float(np.min(cell))
 
 
 def build_field(spec):
@@ -159,18 +230,23 @@ def build_field(spec):
     nd = mesh.region.ndim
     shape = (*[int(k) for k in mesh.n], nv)
     info = {}
+    ls, vs = float(spec.get("ls", 1.0)), float(spec.get("vs", 1.0))
     if spec["kind"] == "affine":
+        # affine in the position relative to the region centre, in units of the length scale; times the value scale
         a0 = [rng.randint(-9, 9) for _ in range(nv)]
         b = [[rng.randint(-4, 4) for _ in range(nd)] for _ in range(nv)]
         info = dict(a0=a0, b=b)
         cen = np.stack(np.meshgrid(*[np.asarray(c) for c in mesh.cells], indexing="ij"), axis=-1)
-        arr = np.stack([a0[c] + sum(b[c][a] * cen[..., a] for a in range(nd)) for c in range(nv)], axis=-1)
+        rel = (cen - np.asarray(mesh.region.center, float)) / ls
+        arr = np.stack([a0[c] + sum(b[c][a] * rel[..., a] for a in range(nd)) for c in range(nv)], axis=-1) * vs
     elif spec["kind"] == "uniform":
         v = [rng.randint(-9, 9) for _ in range(nv)]
-        info = dict(v=v)
-        arr = np.broadcast_to(np.array(v, dtype=float), shape).copy()
+        info = dict(v=[x * vs for x in v])
+        arr = np.broadcast_to(np.array(info["v"], dtype=float), shape).copy()
+    elif int(np.prod(shape)) > 4000:
+        arr = np.random.default_rng(spec["sub"]).integers(-20, 21, size=shape).astype(float) * vs
     else:
-        arr = fieldio.gen_int_array(rng, shape, -20, 20)
+        arr = fieldio.gen_int_array(rng, shape, -20, 20) * vs
     kw = {}
     if spec.get("vdims"):
         kw["vdims"] = spec["vdims"]
@@ -182,6 +258,10 @@ def build_field(spec):
         kw["unit"] = spec["unit"]
     f = df.Field(mesh, nvdim=nv, value=arr, **kw)
     return f, info
+
+
+def field_pos_eps(f):
+    return pos_eps_of(np.asarray(f.mesh.region.pmin, float), np.asarray(f.mesh.region.pmax, float), np.asarray(f.mesh.cell, float))
 
 
 def ord_of(f):
@@ -216,20 +296,33 @@ def cell_interp(arr, pmin, cell, n, p):
     return out
 
 
+def region_close(r1, r2, tol):
+    d = max(np.abs(np.asarray(r1.pmin, float) - np.asarray(r2.pmin, float)).max(),
+            np.abs(np.asarray(r1.pmax, float) - np.asarray(r2.pmax, float)).max())
+    return bool(d <= tol)
+
+
+def geom_tol(pmin, pmax):
+    """tolerance of a corner coordinate: 1e-9 of the region's extent plus a few ulp of the largest coordinate (regions
+    far from the origin); no absolute floor - the property does not depend on the unit of length"""
+    pmin, pmax = np.asarray(pmin, float), np.asarray(pmax, float)
+    return 1e-9 * float((pmax - pmin).max()) + 2.0 ** -48 * float(max(np.abs(pmin).max(), np.abs(pmax).max()))
+
+
 def property_oracle(f, info, spec, g, Macc, n_given, fail, tags, label):
     """the property's statements about one successful rotation with exact accumulated matrix Macc"""
     M = mfloat(Macc)
     reg = f.mesh.region
     pmin, pmax = np.asarray(reg.pmin, float), np.asarray(reg.pmax, float)
     cen0 = 0.5 * (pmin + pmax)
-    scale = float(max(np.abs(pmin).max(), np.abs(pmax).max(), (pmax - pmin).max()))
+    gtol = geom_tol(pmin, pmax)
     gp0, gp1 = np.asarray(g.mesh.region.pmin, float), np.asarray(g.mesh.region.pmax, float)
-    if np.abs(0.5 * (gp0 + gp1) - cen0).max() > 1e-9 * scale:
+    if np.abs(0.5 * (gp0 + gp1) - cen0).max() > gtol:
         fail(f"{label}: centre of the rotated region {0.5 * (gp0 + gp1)} differs from the original centre {cen0}")
         return
     corners = np.array([[(pmin, pmax)[s[a]][a] for a in range(3)] for s in itertools.product([0, 1], repeat=3)])
     rc = (M @ (corners - cen0).T).T + cen0
-    if np.abs(rc.min(axis=0) - gp0).max() > 1e-9 * scale or np.abs(rc.max(axis=0) - gp1).max() > 1e-9 * scale:
+    if np.abs(rc.min(axis=0) - gp0).max() > gtol or np.abs(rc.max(axis=0) - gp1).max() > gtol:
         fail(f"{label}: rotated region [{gp0}, {gp1}] is not the bounding box [{rc.min(axis=0)}, {rc.max(axis=0)}] of the rotated corners")
         return
     n = [int(k) for k in g.mesh.n]
@@ -246,7 +339,12 @@ def property_oracle(f, info, spec, g, Macc, n_given, fail, tags, label):
     back = (M.T @ (tgt - cen0).T).T + cen0
     inside1 = np.all((back >= pmin + cell) & (back <= pmax - cell), axis=1)
     out_by = np.max(np.maximum(pmin - back, back - pmax) / cell, axis=1)
-    outside = out_by > 1e-6
+    # all tolerances are relative: to the cell (positions), to the largest stored magnitude (values); peps = rounding of
+    # the back-rotated position for regions far from the origin (cells)
+    peps = pos_eps_of(pmin, pmax, cell)
+    band = 1e-6 + 4 * peps
+    vtol = 1e-9 + 8 * peps
+    outside = out_by > band
     vals = np.asarray(g.array).reshape(-1, nv)
     arr = np.asarray(f.array, float)
     interp = cell_interp(arr, pmin, cell, n0, back)
@@ -259,8 +357,8 @@ def property_oracle(f, info, spec, g, Macc, n_given, fail, tags, label):
             exp[:, o[a]] = rot[:, a]
     else:
         exp = interp
-    vscale = max(float(np.abs(arr).max()), 1.0)
-    bad = np.where(inside1 & (np.abs(vals - exp).max(axis=1) > 1e-9 * vscale))[0]
+    vscale = float(np.abs(arr).max()) or 1.0
+    bad = np.where(inside1 & (np.abs(vals - exp).max(axis=1) > vtol * vscale))[0]
     if len(bad):
         k = int(bad[0])
         fail(f"{label}: target cell {np.unravel_index(k, n)} (back-rotated centre {back[k]}, at least one cell inside) holds {vals[k]}, "
@@ -272,8 +370,8 @@ def property_oracle(f, info, spec, g, Macc, n_given, fail, tags, label):
         fail(f"{label}: target cell {np.unravel_index(k, n)} has its back-rotated centre {back[k]} outside the original region but holds {vals[k]}")
         return
     if spec["kind"] == "affine" and nv == 1:
-        lin = info["a0"][0] + back @ np.array(info["b"][0], float)
-        bad = np.where(inside1 & (np.abs(vals[:, 0] - lin) > 1e-9 * vscale))[0]
+        lin = (info["a0"][0] + ((back - cen0) / float(spec.get("ls", 1.0))) @ np.array(info["b"][0], float)) * float(spec.get("vs", 1.0))
+        bad = np.where(inside1 & (np.abs(vals[:, 0] - lin) > vtol * vscale))[0]
         if len(bad):
             fail(f"{label}: affine scalar field not reproduced at target cell {np.unravel_index(int(bad[0]), n)}")
             return
@@ -287,14 +385,14 @@ def property_oracle(f, info, spec, g, Macc, n_given, fail, tags, label):
                 qv[o[a]] = r[a]
         else:
             qv = v
-        inpad = out_by < -1e-6  # strictly inside the region: the interpolant of a constant is that constant
-        bad = np.where(inpad & (np.abs(vals - qv).max(axis=1) > 1e-9 * vscale))[0]
+        inpad = out_by < -band  # strictly inside the region: the interpolant of a constant is that constant
+        bad = np.where(inpad & (np.abs(vals - qv).max(axis=1) > vtol * vscale))[0]
         if len(bad):
             fail(f"{label}: uniform field {v} does not become uniform {qv}: cell {np.unravel_index(int(bad[0]), n)} holds {vals[int(bad[0])]}")
             return
     tags.append("deep:%s" % ("0" if not inside1.any() else "1-5" if inside1.sum() <= 5 else ">5"))
     tags.append("outside:%s" % ("0" if not outside.any() else ">0"))
-    return dict(deep=int(inside1.sum()), outside=int(outside.sum()), near=out_by)
+    return dict(deep=int(inside1.sum()), outside=int(outside.sum()), near=out_by, band=band, vtol=vtol, gtol=gtol, vscale=vscale)
 
 
 # ------------------------------------------------------------------ cases
@@ -309,9 +407,9 @@ def cases(rng, tier):
             if r < 0.15:
                 ops.append(dict(t="clear"))
             elif r < 0.25:
-                bad = rng.choice(["zero", "short", "method"])
+                bad = rng.choice(["zero", "short", "long", "method"])
                 o = dict(t="rotate", rot=gen_rot(rng), bad=bad)
-                o["n"] = {"zero": [rng.randint(1, 4), 0, rng.randint(1, 4)], "short": [rng.randint(1, 4)] * 2, "method": None}[bad]
+                o["n"] = {"zero": [rng.randint(1, 4), 0, rng.randint(1, 4)], "short": [rng.randint(1, 4)] * 2, "long": [rng.randint(1, 4)] * 4, "method": None}[bad]
                 ops.append(o)
             else:
                 n = None
@@ -323,6 +421,15 @@ def cases(rng, tier):
         if all(o["t"] == "clear" or o.get("bad") for o in ops):
             ops.append(dict(t="rotate", rot=gen_rot(rng), n=None))
         yield dict(kind="hist", field=spec, ops=ops)
+    # long meshes (hundreds to thousands of cells along one axis), explicit target resolution of the same order; checked
+    # against the property's statement on the real code alone (the exact model is kept for the small meshes above)
+    for k in range(14 if tier == "quick" else 120):
+        long_axis = rng.randrange(3)
+        n0 = [rng.randint(3, 6) if rng.random() < 0.75 else rng.randint(1, 2) for _ in range(3)]
+        n0[long_axis] = rng.choice([rng.randint(100, 999), rng.randint(1000, 4000)])
+        spec = gen_field_spec(rng, n=n0)
+        yield dict(kind="big", field=spec, rot=gen_rot(rng), tn=[rng.randint(2, 10) for _ in range(3)], tlong=rng.randint(300, 3000),
+                   along=rng.random() < 0.55)
     # all 24 lattice rotations on cubic cells against Field.rotate90 (quick: a sample)
     lat = {}
     for q in LATTICE_QUATS:
@@ -333,7 +440,7 @@ def cases(rng, tier):
         yield dict(kind="quarter", field=spec, quat=list(q), method=rng.choice(["quat", "matrix", "rotvec", "euler:xyz"]))
     for k in range(60 if tier == "quick" else 500):
         spec = gen_field_spec(rng, nmin=1, nmax=4, max_cells=40)
-        yield dict(kind="interp", field=spec, sub=rng.getrandbits(30), npts=40)
+        yield dict(kind="interp", field=spec, sub=rng.getrandbits(30), npts=30, nnear=16)
     # the rational parameterisations the model implements itself: from_mrp with dyadic parameters, from_euler with
     # quarter-turn angles (intrinsic and extrinsic, 1-3 axes), from_rotvec about a coordinate axis, and the
     # quarter-turn matrices of C12's planes given as matrix
@@ -402,7 +509,9 @@ def run_impl(case):
         snap = (np.array(f.array, copy=True), fieldio.mesh_json(f.mesh))
         obs["field"] = fieldio.field_json(f)
         obs["tags"] += [f"nvdim:{f.nvdim}", "data:" + case["field"]["kind"], "mapping:" + ("given" if case["field"]["vmap"] else "default"),
-                        "dims:" + ("renamed" if case["field"]["dims"] else "xyz")]
+                        "dims:" + ("renamed" if case["field"]["dims"] else "xyz")] + scale_tags(case["field"])
+        obs["pos_eps"] = field_pos_eps(f)
+        obs["vmax"] = float(np.abs(f.array).max())
         R = df.FieldRotator(f)
         acc = EYE       # exact product of the successful rotations since the last clear
         clean = True    # no failed rotate call since the last clear (the property says nothing about those)
@@ -461,14 +570,13 @@ def run_impl(case):
                     R1.rotate("from_matrix", mfloat(acc).tolist(), n=[int(k) for k in g.mesh.n])
                     h = R1.field
                     if res is not None:
-                        if not (np.allclose(h.mesh.region.pmin, g.mesh.region.pmin, rtol=1e-9, atol=1e-9) and
-                                np.allclose(h.mesh.region.pmax, g.mesh.region.pmax, rtol=1e-9, atol=1e-9)):
+                        if not region_close(h.mesh.region, g.mesh.region, res["gtol"]):
                             fail(f"{label}: region after the history differs from a single rotation by the product")
                         else:
-                            away = np.abs(res["near"]) > 1e-6
+                            away = np.abs(res["near"]) > res["band"]
                             a1 = np.asarray(g.array).reshape(-1, f.nvdim)[away]
                             a2 = np.asarray(h.array).reshape(-1, f.nvdim)[away]
-                            if a1.size and np.abs(a1 - a2).max() > 1e-9 * max(1.0, float(np.abs(f.array).max())):
+                            if a1.size and np.abs(a1 - a2).max() > res["vtol"] * res["vscale"]:
                                 fail(f"{label}: values after the history differ from a single rotation of the original by the ordered product")
                         if res["deep"] and res["outside"] and not is_lattice(acc):
                             nontriv = True
@@ -485,6 +593,35 @@ def run_impl(case):
             fail("rotating modified the original field")
         obs["steps"], obs["model_ops"] = steps, model_ops
         obs["nontrivial"] = nontriv
+    elif case["kind"] == "big":
+        f, info = build_field(case["field"])
+        obs["tags"] += [f"nvdim:{f.nvdim}", "data:" + case["field"]["kind"]] + scale_tags(case["field"])
+        rot = dict(case["rot"])
+        if case["along"]:
+            # rotation about the long axis (any rational angle): the needle stays a needle
+            a = int(np.argmax(case["field"]["n"]))
+            q = [0, 0, 0, rot["quat"][3] or 1]
+            q[a] = rot["quat"][a] or 2
+            rot["quat"] = q
+        Mq = quat_matrix(*rot["quat"])
+        # explicit target resolution: many cells along the longest edge of the rotated box, few along the others
+        M = mfloat(Mq)
+        ext = np.abs(M) @ (np.asarray(f.mesh.region.edges, float))
+        tn = [int(k) for k in case["tn"]]
+        la = int(np.argmax(ext))
+        tn[la] = 1
+        tn[la] = max(100, min(int(case["tlong"]), 40000 // int(np.prod(tn))))
+        R = df.FieldRotator(f)
+        try:
+            apply_rot(R, rot, tn, random.Random(rot["sub"]))
+        except Exception as e:
+            fail(f"valid rotation {rot} n={tn} of a {case['field']['n']} mesh raised {type(e).__name__}: {e}")
+            return obs
+        g = R.field
+        res = property_oracle(f, info, case["field"], g, Mq, tn, fail, obs["tags"], "long mesh")
+        obs["tags"] += ["via:" + rot["method"].split(":")[0], "rot:" + ("lattice" if is_lattice(Mq) else "generic"),
+                        "target-n:" + nbucket(max(tn))]
+        obs["nontrivial"] = bool(res and res["deep"] and res["outside"] and not is_lattice(Mq))
     elif case["kind"] == "quarter":
         f, info = build_field(case["field"])
         obs["field"] = fieldio.field_json(f)
@@ -518,15 +655,16 @@ def run_impl(case):
         obs["g"] = g
         obs["quarter_len"] = len(seq)
         obs["seq"] = [list(t) for t in seq]
-        sc = max(1.0, float(np.abs(f.array).max()))
+        sc = float(np.abs(f.array).max()) or 1.0
+        obs["pos_eps"] = field_pos_eps(f)
+        obs["vmax"] = float(np.abs(f.array).max())
         if [int(k) for k in g.mesh.n] != [int(k) for k in ref.mesh.n]:
             fail("quarter turn: cell counts differ from rotate90")
-        elif not (np.allclose(g.mesh.region.pmin, ref.mesh.region.pmin, rtol=1e-9, atol=1e-9) and
-                  np.allclose(g.mesh.region.pmax, ref.mesh.region.pmax, rtol=1e-9, atol=1e-9)):
+        elif not region_close(g.mesh.region, ref.mesh.region, geom_tol(f.mesh.region.pmin, f.mesh.region.pmax)):
             fail(f"quarter turn {seq}: region {g.mesh.region} differs from the lattice rotation's {ref.mesh.region}")
-        elif np.abs(np.asarray(g.array) - np.asarray(ref.array)).max() > 1e-9 * sc:
+        elif np.abs(np.asarray(g.array) - np.asarray(ref.array)).max() > (1e-9 + 8 * obs["pos_eps"]) * sc:
             fail(f"quarter turn {seq} on cubic cells: FieldRotator values differ from Field.rotate90")
-        obs["tags"] += [f"quarter-len:{len(seq)}", f"nvdim:{f.nvdim}"]
+        obs["tags"] += [f"quarter-len:{len(seq)}", f"nvdim:{f.nvdim}"] + scale_tags(case["field"])
         obs["nontrivial"] = len(seq) > 0
     elif case["kind"] == "param" and case["which"] == "argsort":
         # the step `[..., ordered_idx.argsort()]` of rotate(): numpy's argsort on distinct keys
@@ -591,30 +729,68 @@ def run_impl(case):
         n = [int(k) for k in f.mesh.n]
         cell = [(b - a) / k for a, b, k in zip(pmin, pmax, n)]
         cen = [(a + b) / 2 for a, b in zip(pmin, pmax)]
-        pts = []
+        tol_cells = Fraction(1, 1000)     # 'clearly outside' for the generic points: a thousandth of a cell
+        pts, kinds = [], []               # kinds: None | ("out", d) | ("band", twin index)
+
+        def coord(m, a):
+            if m == "node":
+                return pmin[a] + (rng.randrange(n[a]) + Fraction(1, 2)) * cell[a]
+            if m == "rand":
+                return pmin[a] + Fraction(rng.randint(1, 64 * n[a] - 1), 64) * cell[a]
+            if m == "face":
+                return rng.choice([pmin[a], pmax[a]])
+            return rng.choice([pmin[a] - Fraction(rng.randint(1, 40), 16) * cell[a], pmax[a] + Fraction(rng.randint(1, 40), 16) * cell[a]])
+
         for _ in range(case["npts"]):
-            p = []
             mode = rng.choice(["node", "rand", "rand", "rand", "face", "out", "mixed"])
+            pts.append([coord(mode if mode != "mixed" else rng.choice(["node", "rand", "face", "out"]), a) - cen[a] for a in range(3)])
+            kinds.append(None)
+        # points at every relative distance 1e-1 ... 1e-15 of a cell from a face of the region, on either side (1-3 axes
+        # near a face, the others generic inside), and next to a node (cell centre) on either side
+        for _ in range(case.get("nnear", 0)):
+            near_axes = rng.sample(range(3), rng.choice([1, 1, 2, 3]))
+            d = Fraction(rng.choice([1, 2, 5]), 10 ** rng.randint(1, 15))
+            side = rng.choice(["out", "in", "node"])
+            p, twin = [], []
             for a in range(3):
-                m = mode if mode != "mixed" else rng.choice(["node", "rand", "face", "out"])
-                if m == "node":
-                    x = pmin[a] + (rng.randrange(n[a]) + Fraction(1, 2)) * cell[a]
-                elif m == "rand":
-                    x = pmin[a] + Fraction(rng.randint(1, 64 * n[a] - 1), 64) * cell[a]
-                elif m == "face":
-                    x = rng.choice([pmin[a], pmax[a]])
+                if a not in near_axes:
+                    x = coord(rng.choice(["rand", "node"]), a)
+                    p.append(x - cen[a]); twin.append(x - cen[a])
+                elif side == "node":
+                    x = coord("node", a) + rng.choice([-1, 1]) * d * cell[a]
+                    p.append(x - cen[a]); twin.append(x - cen[a])
                 else:
-                    x = rng.choice([pmin[a] - Fraction(rng.randint(1, 40), 16) * cell[a], pmax[a] + Fraction(rng.randint(1, 40), 16) * cell[a]])
-                p.append(x - cen[a])
+                    lo = rng.random() < 0.5
+                    sgn = (-1 if lo else 1) * (1 if side == "out" else -1)
+                    x = (pmin[a] if lo else pmax[a]) + sgn * d * cell[a]
+                    t = (pmin[a] + cell[a] / 1000) if lo else (pmax[a] - cell[a] / 1000)
+                    p.append(x - cen[a]); twin.append(t - cen[a])
             pts.append(p)
+            if side == "node":
+                kinds.append(None)
+            else:
+                # the twin: same point moved a thousandth of a cell inside on the near axes - between the face and the
+                # first/last cell centre the interpolant does not depend on that coordinate
+                kinds.append((side, float(d), len(pts)))
+                pts.append(twin)
+                kinds.append(None)
+            obs["tags"].append("near-face:%s:%s" % (side, "1e-1..1e-5" if d >= Fraction(1, 10 ** 5) else "1e-6..1e-10" if d >= Fraction(1, 10 ** 10) else "1e-11..1e-15"))
         R = df.FieldRotator(f)
         arr = np.asarray(f.array, float)
         P = np.array([[float(x) for x in p] for p in pts])
+        pts = [[Fraction(float(x)) for x in row] for row in P.tolist()]   # the points the code really gets
         out = np.stack([R._create_interpolation_funcs(arr[..., c])(P) for c in range(f.nvdim)], axis=-1)
         obs["pts"] = [[Q(x) for x in p] for p in pts]
         obs["out"] = out.tolist()
-        # property-level: value at a node is the stored value; outside is zero
-        for p, o in zip(pts, out):
+        obs["tags"] += scale_tags(case["field"])
+        peps = field_pos_eps(f)
+        obs["pos_eps"] = peps
+        vsc = float(np.abs(arr).max()) or 1.0
+        obs["vmax"] = vsc
+        vt = (1e-12 + 8 * peps) * vsc
+        band = 1e-6 + 4 * peps
+        # property-level: value at a node is the stored value; outside is zero; up to the face the edge value continues
+        for k, (p, o) in enumerate(zip(pts, out)):
             idx, node, outside = [], True, False
             for a in range(3):
                 u = (p[a] + cen[a] - pmin[a]) / cell[a] - Fraction(1, 2)
@@ -622,14 +798,18 @@ def run_impl(case):
                     node = False
                 else:
                     idx.append(int(u))
-                if p[a] + cen[a] < pmin[a] - cell[a] / 1000 or p[a] + cen[a] > pmax[a] + cell[a] / 1000:
+                if p[a] + cen[a] < pmin[a] - cell[a] * tol_cells or p[a] + cen[a] > pmax[a] + cell[a] * tol_cells:
                     outside = True
-            if node and np.abs(o - arr[tuple(idx)]).max() > 1e-12 * max(1.0, float(np.abs(arr).max())):
+            if node and np.abs(o - arr[tuple(idx)]).max() > vt:
                 fail(f"interpolant at the centre of cell {idx} is {o}, stored value {arr[tuple(idx)]}")
                 break
             if outside and np.abs(o).max() != 0:
-                fail(f"interpolant at {p} (outside) is {o}, not 0")
+                fail(f"interpolant at {[float(x) for x in p]} (outside) is {o}, not 0")
                 break
+            if kinds[k] is not None and kinds[k][0] == "out" and kinds[k][1] > band and np.abs(o).max() != 0:
+                fail(f"interpolant at {[float(x) for x in p]} ({kinds[k][1]:g} cell outside the region) is {o}, not 0")
+                break
+        obs["twins"] = [kd[2] if kd is not None else None for kd in kinds]
         obs["nontrivial"] = True
     else:
         rng = random.Random(case["sub"])
@@ -665,6 +845,7 @@ def run_impl(case):
         arr = fieldio.gen_int_array(rng, (*[int(k) for k in mesh.n], nv))
         f = df.Field(mesh, nvdim=nv, value=arr, **kw)
         obs["field"] = fieldio.field_json(f)
+        obs["vmax"] = float(np.abs(arr).max())
         obs["why"] = why
         obs["tags"].append("refuse:" + why)
         try:
@@ -719,7 +900,9 @@ def cmp_rot(name, rotm, mrows, dis):
     return True
 
 
-def cmp_rotated(name, g, st, dis, auto):
+def cmp_rotated(name, g, st, dis, auto, peps=0.0, vmax=0.0):
+    """peps: rounding bound (cells) of the back-rotated positions on the real code (regions far from the origin);
+    vmax: largest magnitude stored in the ORIGINAL field (the values the rounding errors are relative to)"""
     mj = st["field"]
     n_i = [int(k) for k in g.mesh.n]
     n_m = mj["mesh"]["n"]
@@ -737,10 +920,11 @@ def cmp_rotated(name, g, st, dis, auto):
         dis.append(f"{name}: n impl {n_i} vs model {n_m}")
         return None
     got = fieldio.field_json(g)
-    rs = max([abs(float(F(x))) for x in mj["mesh"]["region"]["pmin"] + mj["mesh"]["region"]["pmax"]] + [1.0])
+    # relative to the region itself (no absolute floor: the unit of length is arbitrary)
+    gt = geom_tol([float(F(x)) for x in mj["mesh"]["region"]["pmin"]], [float(F(x)) for x in mj["mesh"]["region"]["pmax"]])
     for key in ("pmin", "pmax"):
         a, b = got["mesh"]["region"][key], mj["mesh"]["region"][key]
-        if any(abs(float(F(x)) - float(F(y))) > 1e-9 * rs for x, y in zip(a, b)):
+        if any(abs(F(x) - F(y)) > gt for x, y in zip(a, b)):
             dis.append(f"{name}: region {key} impl {[float(F(x)) for x in a]} vs model {[float(F(x)) for x in b]}")
             return None
     for key in ("dims", "units"):
@@ -763,10 +947,10 @@ def cmp_rotated(name, g, st, dis, auto):
         dis.append(f"{name}: data shape impl {iv.shape} vs model {mv.shape}")
         return None
     margins = np.array([float(F(x)) for x in st["margins"]])
-    away = margins > 1e-6
-    sc = max(float(np.abs(mv).max()) if mv.size else 0.0, float(np.abs(iv).max()) if iv.size else 0.0, 1e-300)
+    away = margins > 1e-6 + 4 * peps
+    sc = max(float(np.abs(mv).max()) if mv.size else 0.0, float(vmax), 1e-300)
     d = np.abs(mv - iv).max(axis=1)
-    bad = np.where(away & (d > 1e-9 * sc))[0]
+    bad = np.where(away & (d > (1e-9 + 8 * peps) * sc))[0]
     if len(bad):
         k = int(bad[0])
         dis.append(f"{name}: value at flat cell {k} impl {iv[k].tolist()} vs model {mv[k].tolist()} (margin {margins[k]:.3g} cells)")
@@ -793,13 +977,13 @@ def compare(case, obs, rs):
             if not cmp_rot(name, a["rotm"], b["rot"], dis):
                 break
             if a["t"] == "rotate" and a["ok"]:
-                cmp_rotated(name, a["field"], b, dis, a["auto"])
+                cmp_rotated(name, a["field"], b, dis, a["auto"], obs.get("pos_eps", 0.0), obs.get("vmax", 0.0))
         return dis
     if case["kind"] == "quarter":
         r = rs[0]
         if "ok" not in r or r["ok"][0]["err"] is not None:
             return [f"quarter turn: impl ok vs model {str(r)[:200]}"]
-        cmp_rotated("quarter turn", obs["g"], r["ok"][0], dis, False)
+        cmp_rotated("quarter turn", obs["g"], r["ok"][0], dis, False, obs.get("pos_eps", 0.0), obs.get("vmax", 0.0))
         if not rs[1]["is_rot"] or [[F(x) for x in row] for row in rs[1]["ok"]] != quat_matrix(*case["quat"]):
             dis.append(f"harness matrix of quaternion {case['quat']} differs from the model's ofQuat {rs[1]}")
         # the model's quarter-turn matrices Rq (the ones the theorems speak about), multiplied in call order,
@@ -833,12 +1017,25 @@ def compare(case, obs, rs):
         mv = np.array([[float(F(x)) for x in row] for row in r["ok"]])
         iv = np.array(obs["out"], float)
         margins = np.array([float(F(x)) for x in r["margins"]])
-        sc = max(float(np.abs(mv).max()), 1.0)
+        peps = obs.get("pos_eps", 0.0)
+        sc = max(float(np.abs(mv).max()), float(obs.get("vmax", 0.0))) or 1.0
+        vt = (1e-12 + 8 * peps) * sc
+        band = 1e-6 + 4 * peps
         d = np.abs(mv - iv).max(axis=1)
-        bad = np.where((margins > 1e-6) & (d > 1e-12 * sc))[0]
+        bad = np.where((margins > band) & (d > vt))[0]
         if len(bad):
             k = int(bad[0])
-            dis.append(f"interpolator at point {obs['pts'][k]} (relative to the centre): impl {iv[k].tolist()} vs model {mv[k].tolist()}")
+            dis.append(f"interpolator at point {[float(F(x)) for x in obs['pts'][k]]} (relative to the centre): impl {iv[k].tolist()} vs model {mv[k].tolist()}")
+            return dis
+        # boundary comparator: within the band around the inside/outside face either side's outcome is accepted -
+        # zero, or the value just inside the face (the twin point a thousandth of a cell inside)
+        for k in np.where((margins <= band) & (d > vt))[0]:
+            tw = (obs.get("twins") or [None] * len(iv))[int(k)]
+            if tw is None or np.abs(iv[k]).max() == 0 or np.abs(iv[k] - mv[tw]).max() <= vt:
+                continue
+            dis.append(f"interpolator at point {[float(F(x)) for x in obs['pts'][int(k)]]} ({margins[k]:.3g} cell from the inside/outside face): "
+                       f"impl {iv[k].tolist()} is neither 0 nor the model's value just inside")
+            break
         return dis
     # refuse
     r = rs[0]
@@ -852,7 +1049,7 @@ def compare(case, obs, rs):
             return [f"rotate on {obs['why']} field: impl {obs['rotate']} vs model {m_rot}"]
         cmp_rot("rotate on refused field", obs["rotm"], st["rot"], dis)
         if m_rot == "ok":
-            cmp_rotated("rotate (fine)", obs["g"], st, dis, True)
+            cmp_rotated("rotate (fine)", obs["g"], st, dis, True, 0.0, obs.get("vmax", 0.0))
     return dis
 
 
